@@ -198,16 +198,21 @@ CHECKS = {
         "assumptions": COMMON_ASSUMPTIONS + ["the emission point of MessageStore (GroupMessageEvent) is exercised by C08, here the observation point is the secret store API the message store calls"],
     },
     "C14": {
-        "pkg": "pkg/secretstore",
-        "test": "TestVerifC14",
         "level": "exploration",
-        "quick": {"procs": 32, "checks_per_proc": 400},
-        "thorough": {"procs": 64, "checks_per_proc": 4000},
+        "parts": [
+            {"pkg": "pkg/secretstore", "test": "TestVerifC14",
+             "quick": {"procs": 32, "checks_per_proc": 400}, "thorough": {"procs": 64, "checks_per_proc": 4000}},
+            {"pkg": ".", "test": "TestVerifC14S", "proc_timeout": "60m",
+             "quick": {"procs": 16, "checks_per_proc": 50}, "thorough": {"procs": 32, "checks_per_proc": 600}},
+        ],
         "rule": "one case = a receiver without network, 1-2 senders x 1-2 groups, message-key window and reference window each from "
                 "{1,2,3,100}, messages sealed before and after the announcement, then a seeded schedule of log deliveries, push "
-                "deliveries (genuine, bit-flipped, unknown group reference), repetitions and receiver restarts; non-trivial = always "
+                "deliveries (genuine, bit-flipped, unknown group reference), repetitions and receiver restarts. part 2: one case = 1-2 "
+                "senders and a receiver (online or partitioned, then healed) on a multi-member group in the simulated network, 1-6 "
+                "messages appended through the real message store, push payloads sealed by the sender's OutOfStoreSeal and opened by the "
+                "receiver's OutOfStoreReceive before / after / without the log delivery, repeatedly, then the fixpoint. non-trivial = always "
                 "(each schedule mixes both paths); distinct = distinct hash of the delivery/outcome trace.",
-        "required_probes": ["push_must_open", "push_opened", "reference_window_edge"],
+        "required_probes": ["push_must_open", "push_opened", "reference_window_edge", "push_before_log", "push_after_log", "service_push_session_checked"],
         "assumptions": COMMON_ASSUMPTIONS + ["the reference-window update that MessageStore.processMessage performs after a log delivery is performed by the harness"],
     },
     "C05": {
